@@ -98,6 +98,16 @@ Theorem c13_scenario_oracle_sound :
   forall full n cs, oracle_c13_acc cs (scenario true full n cs) = true.
 Proof. exact oracle_c13_acc_sound_l. Qed.
 
+(* C13.7b  the connection-side oracle (after the revocation every completed response is followed by
+   the server closing that connection; totals never decrease) holds of the model for every
+   full-server scenario of at most 4 commands over the stated alphabet and n = 1, 2, by exhaustive
+   evaluation (finite domain; the unbounded statements are c13_inflight_completes,
+   c13_at_most_one_more_request and c13_closes_at_head_when_revoked above). *)
+Theorem c13_conn_oracle_sound_upto_4 :
+  forall n cs, In n [1; 2] -> length cs <= 4 -> Forall (fun c => In c c13_alphabet) cs ->
+    oracle_c13_conn cs (totals_cmds true true n (sim_init n) cs) = true.
+Proof. exact oracle_c13_conn_sound_upto_l. Qed.
+
 (* C13.8  the tree before the repair of D10 violates stop_is_bounded: after max_conns clients
    have connected and gone idle and the permit is revoked, the accept task is parked in
    async_wait_token; it cannot move, and stays so under every continuation in which no client
@@ -129,4 +139,5 @@ Print Assumptions c13_others_leave_conn_alone.
 Print Assumptions c13_at_most_one_more_request.
 Print Assumptions c13_closes_at_head_when_revoked.
 Print Assumptions c13_scenario_oracle_sound.
+Print Assumptions c13_conn_oracle_sound_upto_4.
 Print Assumptions c13_stop_bounded_refuted.
